@@ -12,7 +12,7 @@
     {"op":"escape","s":[code points]} → {"out":[code points of `jsonEscape s`], "ascii":bool, "utf8":bool, "latin1":bool
                                           (can the RAW string be written with that encoding)}
     {"op":"dir","target":name,"tmp":"beside"|{"system":dev},"dirs":[{"name","dev","entries":[{"name","kind":"subdir"|"other"|"json"|"xml",
-             ("report","g","jc","pretty" for the two last)}]}],"save":{"file":name,"fmt":"json"|"xml","jc","pretty","g","report":R}}
+             ("report","g","jc","pretty" for the two last)}]}],"save":{"file":name,"fmt":"json"|"xml","jc","pretty","g","report":R},"order":[names in os.listdir order]}   (kind "hostile": a file a backend crashes on)
         → {"save":"saved"|"cross-device"|"save-error", "names":[entries of the target directory afterwards],
            "load":{"o":"no-dir"|"no-report"|"loaded","report"}, "count": number of reports the directory lists}   (`DirStore.saveInto`, `loadDir`)
   Run: `lake env lean --run drivers/C09.lean`
@@ -95,6 +95,7 @@ def decDirEntry (j : Json) : Except String (DirStore.Name × DirStore.Entry) := 
   match (← getStr j "kind") with
   | "subdir" => pure (n, .subdir)
   | "other" => pure (n, .other)
+  | "hostile" => pure (n, .hostile)
   | k =>
     let r ← decReport (← field j "report")
     let g ← getNat j "g"
@@ -154,21 +155,29 @@ def handle (j : Json) : Except String Json := do
     let sv ← field j "save"
     let r ← decReport (← field sv "report")
     let (fs', out) := DirStore.saveInto pl fs target (← getStr sv "file").toList (← decFmt sv) (← getNat sv "g") r
-    let names := match DirStore.findDir target fs' with
-      | some d => d.entries.map (fun (e : DirStore.Name × DirStore.Entry) => Json.str (String.ofList e.1))
+    -- the entries of the target directory in the order `os.listdir` really gave them ("order"; unlisted ones last)
+    let order : List DirStore.Name ← match fieldOpt j "order" with
+      | .null => pure []
+      | oj => do pure ((← decList (fun x => x.getStr?) oj).map String.toList)
+    let ents : List (DirStore.Name × DirStore.Entry) := match DirStore.findDir target fs' with
+      | some d => order.filterMap (fun n => d.entries.find? (fun e => e.1 == n)) ++ d.entries.filter (fun e => !order.contains e.1)
       | none => []
-    let count := match DirStore.findDir target fs' with
-      | some d => (DirStore.loadAll d.entries).length
-      | none => 0
-    let ld := match DirStore.loadDir fs' target with
-      | .noDir => Json.mkObj [("o", "no-dir")]
-      | .noReport => Json.mkObj [("o", "no-report")]
-      | .loaded r' => Json.mkObj [("o", "loaded"), ("report", encReport r')]
+    let names := ents.map (fun (e : DirStore.Name × DirStore.Entry) => Json.str (String.ofList e.1))
+    let count : Json := match DirStore.loadAll ents with
+      | some l => Json.num l.length
+      | none => Json.str "crashed"
+    let ld := match DirStore.findDir target fs' with
+      | none => Json.mkObj [("o", "no-dir")]
+      | some _ => match DirStore.firstLoad ents with
+        | .noDir => Json.mkObj [("o", "no-dir")]
+        | .noReport => Json.mkObj [("o", "no-report")]
+        | .crashed => Json.mkObj [("o", "crashed")]
+        | .loaded r' => Json.mkObj [("o", "loaded"), ("report", encReport r')]
     let so := match out with
       | .saved => "saved"
       | .crossDevice => "cross-device"
       | .serialiseFailed _ => "save-error"
-    pure (Json.mkObj [("save", Json.str so), ("names", Json.arr names.toArray), ("count", Json.num count), ("load", ld)])
+    pure (Json.mkObj [("save", Json.str so), ("names", Json.arr names.toArray), ("count", count), ("load", ld)])
   | "escape" =>
     let s ← decNats (← field j "s")
     pure (Json.mkObj [("out", Json.arr ((jsonEscape s).map (fun (n : Nat) => Json.num n)).toArray),
